@@ -598,12 +598,16 @@ func (w *driveWorld) partialOps() {
 				switch w.rng.Intn(4) {
 				case 0: // forget some of what it remembers, and something it does not
 					var s []int
+					var keys []int
 					for x := range in.cached {
+						keys = append(keys, x)
+					}
+					sort.Ints(keys) // (map order must not decide which random draw goes to which leaf)
+					for _, x := range keys {
 						if w.rng.Intn(2) == 0 {
 							s = append(s, x)
 						}
 					}
-					sort.Ints(s)
 					if w.n > 0 && w.rng.Intn(3) == 0 {
 						s = append(s, w.rng.Intn(int(w.n)))
 					}
